@@ -6,6 +6,7 @@ new child on the same directory -> dump D2 -> compare, TTL deadlines within
 the measured brackets; keys whose deadline passes during the downtime must be
 absent."""
 import math
+import threading
 import time
 
 from .. import server, util, resp
@@ -157,16 +158,49 @@ def dump_all(c):
         keys = c.cmd("KEYS", "*")
         for k in keys:
             snap = server_key_snapshot(c, k)
-            t0 = time.monotonic()
+            t0, w0 = time.monotonic(), time.time()
             p = c.cmd("PTTL", k)
-            t1 = time.monotonic()
-            d[(db, k)] = (snap, p, t0, t1)
+            t1, w1 = time.monotonic(), time.time()
+            d[(db, k)] = (snap, p, t0, t1, w0, w1)
     c.cmd("SELECT", 0)
     return d
 
 
-def round_trip(rng, res, binary, rnd):
+class Jitter:
+    """Scheduling noise of this machine, measured while the server saves / loads:
+    a thread sleeps 1 ms at a time and records the largest oversleep. The server
+    reads two clocks per key (monotonic deadline, wall clock) when it writes and
+    when it loads a TTL; a preemption between the two reads moves that deadline
+    by the preemption time, which no client-side bracket can see."""
+
+    def __init__(self):
+        self.max = 0.0
+        self._stop = False
+        self._t = threading.Thread(target=self._run, daemon=True)
+
+    def _run(self):
+        while not self._stop:
+            t = time.monotonic()
+            time.sleep(0.001)
+            d = time.monotonic() - t - 0.001
+            if d > self.max:
+                self.max = d
+
+    def __enter__(self):
+        self._t.start()
+        return self
+
+    def __exit__(self, *a):
+        self._stop = True
+        self._t.join(1.0)
+
+
+def round_trip(rng, res, binary, rnd, candidates=None):
+    """candidates: list that receives deadline deviations [(key, sig, detail)] instead
+    of reporting them (they are confirmed by repeating the round)."""
     srv = server.Server(binary, config_text="save \"\"\n").start()
+    jit_save = Jitter()
+    jit_load = Jitter()
     try:
         c = srv.client(timeout=60)
         made = build_dataset(c, rng, res)
@@ -183,6 +217,7 @@ def round_trip(rng, res, binary, rnd):
             c.cmd("PEXPIRE", k, rng.choice([300, 400, 500]))
             short.append((k, typ))
         t_save0 = time.monotonic()
+        jit_save.__enter__()
         if mode == "SAVE":
             r = c.cmd("SAVE", timeout=120)
             if r != OK:
@@ -203,11 +238,15 @@ def round_trip(rng, res, binary, rnd):
             else:
                 res.inconclusive.append("BGSAVE did not finish within 120 s")
                 return
+        jit_save.__exit__()
         srv.kill()                       # SIGKILL: the dump must not depend on a clean exit
         if short:
             time.sleep(max(0.0, 0.7 - (time.monotonic() - t_save0)))
-        srv.start()
-        c = srv.client(timeout=60)
+        with jit_load:
+            srv.start()
+            c = srv.client(timeout=60)
+            c.cmd("PING")
+        noise_ms = 1000.0 * (jit_save.max + jit_load.max)
         d2 = dump_all(c)
         res.evaluations += 1 + len(d1)
         res.cell("mode", mode)
@@ -226,8 +265,8 @@ def round_trip(rng, res, binary, rnd):
                 res.violation("roundtrip/%s/%s/missing" % (d1[kk][0][0], sc), "%s: key %s in db %d (%s, %s) is missing after restart" % (
                     detail_base, resp.show(kk[1]), kk[0], d1[kk][0][0], sc))
                 return
-            s1, p1, a0, a1 = d1[kk]
-            s2, p2, b0, b1 = d2[kk]
+            s1, p1, a0, a1, wa0, wa1 = d1[kk]
+            s2, p2, b0, b1, wb0, wb1 = d2[kk]
             if s1[0] != s2[0]:
                 res.violation("roundtrip/%s/%s/type" % (s1[0], sc), "%s: key %s in db %d was %s, after restart %s: %s" % (
                     detail_base, resp.show(kk[1]), kk[0], s1[0], s2[0], resp.show(list(s2), 30)))
@@ -247,11 +286,27 @@ def round_trip(rng, res, binary, rnd):
                 res.violation("roundtrip/%s/%s/ttl-presence" % (s1[0], ttlc), "%s: key %s: PTTL before %r, after %r" % (detail_base, resp.show(kk[1]), p1, p2))
                 return
             if p1 >= 0:
-                lo = p1 - (b1 - a0) * 1000 - 3
-                hi = p1 - (b0 - a1) * 1000 + 3
+                # A deadline lives on the monotonic clock while the server runs and travels
+                # through the dump as wall-clock time: the elapsed time between the two PTTLs
+                # is a mix of both clocks, which need not tick at the same rate (slewing).
+                if noise_ms > 50:
+                    res.count("ttl_deadlines_not_judged_machine_too_noisy")
+                    continue
+                tol = 3 + 2 * noise_ms
+                lo = p1 - max(b1 - a0, wb1 - wa0) * 1000 - tol
+                hi = p1 - min(b0 - a1, wb0 - wa1) * 1000 + tol
+                res.count("ttl_deadlines_compared")
+                if abs((b1 - a0) - (wb1 - wa0)) > 0.002:
+                    res.count("ttl_deadlines_with_clock_disagreement_over_2ms")
                 if not (lo <= p2 <= hi):
-                    res.violation("roundtrip/%s/%s/ttl-deadline" % (s1[0], ttlc), "%s: key %s: PTTL before %d (asked %.3f..%.3f), after %d (asked %.3f..%.3f): "
-                                  "deadline moved, allowed [%.0f, %.0f]" % (detail_base, resp.show(kk[1]), p1, a0, a1, p2, b0, b1, lo, hi))
+                    sig = "roundtrip/%s/%s/ttl-deadline" % (s1[0], ttlc)
+                    detail = ("%s: key %s: PTTL before %d (asked %.3f..%.3f), after %d (asked %.3f..%.3f): deadline moved, "
+                              "allowed [%.1f, %.1f] (3 ms granularity + 2 x %.2f ms scheduling noise measured during save and load)" % (
+                                  detail_base, resp.show(kk[1]), p1, a0, a1, p2, b0, b1, lo, hi, noise_ms))
+                    if candidates is not None:
+                        candidates.append((kk, sig, detail))
+                        continue
+                    res.violation(sig, detail)
                     return
         extra = [kk for kk in d2 if kk not in d1]
         if extra:
@@ -260,18 +315,34 @@ def round_trip(rng, res, binary, rnd):
         if rnd <= 1:
             res.sample(["db%d %s %s %s %s" % (db, resp.show(k, 20), typ, sc, ttlc) for db, k, typ, sc, ttlc in made[:8]])
     finally:
+        jit_save._stop = jit_load._stop = True
         srv.cleanup()
 
 
 def worker(wseed, binary, budget_s):
-    rng = util.rng_for(wseed, "C09")
     res = Result()
     t_end = time.time() + budget_s
     n = 0
     while time.time() < t_end:
         n += 1
         try:
-            round_trip(rng, res, binary, n)
+            cands = []
+            round_trip(util.rng_for(wseed, "C09", n), res, binary, n, cands)
+            if cands:
+                # A deadline that moved by more than the tolerance: a defect moves it every
+                # time, a preempted server thread does not. Repeat the identical round twice.
+                res.count("ttl_deadline_candidates", len(cands))
+                still = {kk: (sig, detail) for kk, sig, detail in cands}
+                for rep in range(2):
+                    again = []
+                    round_trip(util.rng_for(wseed, "C09", n), res, binary, n, again)
+                    seen = {kk for kk, _, _ in again}
+                    still = {kk: v for kk, v in still.items() if kk in seen}
+                    if not still:
+                        break
+                res.count("ttl_deadline_candidates_confirmed", len(still))
+                for kk, (sig, detail) in sorted(still.items())[:3]:
+                    res.violation(sig, detail + " [same key moved again in 2 identical repeat rounds]")
         except (Closed, Timeout, AssertionError, RuntimeError) as e:
             res.inconclusive.append("round %d: harness/connection problem %r" % (n, e))
     res.count("rounds", n)
@@ -290,7 +361,7 @@ def run(tier):
                        "members / fields / key names, several DBs incl. 15 with equal key names, scores +-inf/-0/subnormal/1e308, "
                        "streams with explicit and auto IDs, deleted tail, emptied, multi-field; TTLs of hours, minutes and "
                        "300-500 ms) -> canonical dump with brackets -> SAVE or BGSAVE (completion via the in-progress flag) -> "
-                       "SIGKILL -> restart on the same directory -> dump -> compare; PTTL within the client-side bracket +-3 ms; "
+                       "SIGKILL -> restart on the same directory -> dump -> compare; PTTL within the client-side bracket (both clocks) +-3 ms + 2 x measured scheduling noise, a deviation must repeat in two identical rounds; "
                        "short-TTL keys absent after >= 700 ms downtime; cell = (type, size class, ttl class, db class)", t0,
                        assumptions=["dumps are taken with the server's own read commands", "empty key names are not generated (refused by design)",
                                     "stream field order inside an entry is not compared"], min_cells=20)
